@@ -50,19 +50,11 @@ def main():
     man = json.load(open("/verif/MANIFEST.json"))
     claimed = [c["property_id"] for c in man["checks"]]
     todo = checks or claimed
-    rcs, _ = sh("git -C /repo status --porcelain --untracked-files=no")
-    assert _.strip() == "", "/repo has local modifications"
-    rca, outa = sh(f"git -C /repo apply {patch}")
-    assert rca == 0, outa
-    results = {}
-    try:
-        env = dict(os.environ, NSSA_NO_EVIDENCE="1")
-        for p in todo:
-            rc, out = sh(f"/verif/check {p}", cwd="/verif", env=env, timeout=600)
-            lines = [l for l in out.splitlines() if l.startswith(("VIOLATION", "  ", "ANALYSIS-ERROR"))]
-            results[p] = {"exit": rc, "report": lines[:6]}
-    finally:
-        sh("git -C /repo checkout -- .")
+    sys.path.insert(0, os.path.dirname(os.path.abspath(__file__)))
+    from scratch import checks_on_patch
+    r_ = checks_on_patch(patch, todo, nlines=6, jobs=8)             # scratch copy of the sources, never /repo
+    assert r_ is not None, "patch does not apply to the current tree"
+    results = {p: {"exit": rc, "report": lines} for p, (rc, lines) in r_.items()}
     report["checks"] = {p: r["exit"] for p, r in results.items()}
     report["detected_by"] = [p for p, r in results.items() if r["exit"] == 1]
     report["analysis_error_in"] = [p for p, r in results.items() if r["exit"] == 2]
